@@ -79,7 +79,7 @@ def generate(rng, tier):
     out = []
     for i in range(n):
         r = rng.random()
-        ast = U.gen_ast(rng, size="small" if rng.random() < 0.6 else "big", stress=rng.choice([0.0, 0.3, 0.6, 0.9]),
+        ast = U.gen_ast(rng, size="small" if rng.random() < (0.75 if tier == "quick" else 0.6) else "big", stress=rng.choice([0.0, 0.3, 0.6, 0.9]),
                         p_const=rng.choice([0.0, 0.15, 0.4]), pardup=0.25 if r < 0.3 else 0.0,
                         p_cycle=0.12)
         if r > 0.82:
